@@ -568,8 +568,11 @@ class Printer:
 
     def call(self, c):
         parts = [c.fn.name + "_a"]
-        for a in c.args:
-            parts.append(self.ex(a, True))
+        for p, a in zip(c.fn.params, c.args):
+            if p.ref and not isinstance(a, Var):
+                parts.append("(" + self.target(a) + ")")   # Referenz arguments use the assignable syntax
+            else:
+                parts.append(self.ex(a, True))
         return " ".join(parts)
 
     def target(self, t):
